@@ -545,3 +545,63 @@ def _(inp):
 def _(tier, rng):
     for decode in (False, True):
         for level in (0, 1, 3): yield dict(decode=decode, level=level)
+
+
+# ------------------------------------------------------------------ error location: element-level decoders always name the node (C19)
+t = Target('validators.element_level_errors_name_their_node', ['C19'], 'xmlschema/validators/wildcards.py', 'XsdAnyElement.raw_decode',
+           note='raise_or_collect falls back to the context\'s CURRENT element when an error is reported without a node; in the element-level decoders the current element is still the '
+                'last element decoded before (a sibling\'s descendant), so every validation_error call of XsdElement / XsdGroup / XsdAnyElement / XsdAttributeGroup / XsdAttribute '
+                'raw_decode, collect_key_fields and check_dynamic_context passes the instance node (or the data it is reporting on) explicitly; simple-type decoders run with the '
+                'current element already set to their owner and are exempt',
+           assumes=['syntactic obligation on the real AST (no solver): a fourth positional argument or obj= / elem= keyword is present'])
+
+
+@t.symbolic
+def _(run):
+    import ast, glob, os
+    from pyvc.se import REPO
+    run.exec(); n = 0
+    WHO = {'elements.py': ('XsdElement', 'Xsd11Element'), 'groups.py': ('XsdGroup', 'Xsd11Group'), 'wildcards.py': ('XsdAnyElement', 'Xsd11AnyElement'), 'attributes.py': ('XsdAttributeGroup', 'XsdAttribute', 'Xsd11Attribute')}
+    for fname, classes in WHO.items():
+        tree = ast.parse(open(os.path.join(REPO, 'xmlschema/validators', fname), encoding='utf-8-sig').read())
+        for cls in [c for c in tree.body if isinstance(c, ast.ClassDef) and c.name in classes]:
+            for fn in [f for f in cls.body if isinstance(f, ast.FunctionDef) and f.name in ('raw_decode', 'collect_key_fields', 'check_dynamic_context')]:
+                calls = [c for c in ast.walk(fn) if isinstance(c, ast.Call) and isinstance(c.func, ast.Attribute) and c.func.attr == 'validation_error']
+                short = [ast.unparse(c)[:80] for c in calls if len(c.args) < 4 and not any(k.arg in ('obj', 'elem') for k in c.keywords)]
+                n += 1
+                run.vc('every-error-names-its-node', z3.BoolVal(True), [], z3.BoolVal(not short), f'{fname}:{cls.name}.{fn.name}' + (' without node: ' + '; '.join(short) if short else ''))
+    run.paths = n
+    if n < 8: raise Exception('scan found too few element-level decoders')
+
+
+# ------------------------------------------------------------------ lax never raises: errors raised by the dynamic-context helper are collected (C11)
+t = Target('groups.raw_decode.dynamic_context_errors_are_collected', ['C11', 'C07'], 'xmlschema/validators/groups.py', 'XsdGroup.raw_decode',
+           note='XsdGroup.check_dynamic_context raises XMLSchemaValidationError (blocked substitution, blocked xsi:type derivation on a substitute, XSD 1.1 dynamic EDC) and lets KeyError / '
+                'TypeError of the xsi:type lookup through; its call in the content-model loop sits in a try whose handler catches all three and hands the error to '
+                'context.validation_error with the caller\'s validation mode - raise_or_collect then raises only in strict mode (proved separately)',
+           assumes=['syntactic obligation on the real AST (no solver)'])
+
+
+@t.symbolic
+def _(run):
+    import ast
+    ex = run.exec(); fn = ex.fn; n = 0
+    parents = {c: p for p in ast.walk(fn) for c in ast.iter_child_nodes(p)}
+    calls = [c for c in ast.walk(fn) if isinstance(c, ast.Call) and isinstance(c.func, ast.Attribute) and c.func.attr == 'check_dynamic_context']
+    run.vc('the-helper-is-called', z3.BoolVal(True), [], z3.BoolVal(len(calls) >= 1), 'raw_decode')
+    for c in calls:
+        n += 1; node = c; tr = None
+        while node in parents:
+            p = parents[node]
+            if isinstance(p, ast.Try) and any(node is b or node in ast.walk(b) for b in p.body): tr = p; break
+            node = p
+        caught = set()
+        collected = False
+        if tr is not None:
+            for h in tr.handlers:
+                names = [ast.unparse(x) for x in (h.type.elts if isinstance(h.type, ast.Tuple) else [h.type])] if h.type is not None else ['BaseException']
+                body = ' '.join(ast.unparse(s_) for s_ in h.body)
+                if 'context.validation_error(validation, ' in body and not any(isinstance(x, ast.Raise) for s_ in h.body for x in ast.walk(s_)): caught.update(names); collected = True
+        need = {'XMLSchemaValidationError', 'KeyError', 'TypeError'}
+        run.vc('validation-key-and-type-errors-of-the-helper-are-collected', z3.BoolVal(True), [], z3.BoolVal(collected and (need <= caught or 'Exception' in caught)), f'call {n}: caught={sorted(caught)}')
+    run.paths = max(1, n)
